@@ -69,8 +69,8 @@ UNMODELLED = [
     "polynomial ops mpqs_poly / mpqs_batchinv call prepare_prime and batch_inversion directly with a fresh workspace",
     "bnum U1024/U256/I256 operators and num_integer::sqrt are modelled as the mathematical operations with explicit range checks; "
     "slice::sort_by_key/sort as a stable merge sort, BTreeSet as a strictly increasing list",
-    "the model has the semantics of the checked profile: where the release profile continues instead (debug_assert-only checks, "
-    "underflow in make_poly) the comparison is run in the checked profile only",
+    "the model has the semantics of the checked profile: where the release profile continues instead (debug_assert-only checks) "
+    "the comparison is run in the checked profile only",
 ]
 
 SMALL_PRIMES = [p for p in range(2, 200) if all(p % q for q in range(2, p))]
@@ -684,7 +684,7 @@ def mpqs_cases(rng, tier, scale):
         bits = rng.choice([17, 18, 20, 22, 24, 27, 30, 34, 40])
         n = semiprime(rng, bits, rng.choice([1, 3, 5, 7]))
         k = rng.choice([1, 1, 3, 5, 2])
-        ok = [d for d in small_d if d * d < n * k and n * k % d and pow(n * k, (d - 1) // 2, d) == 1]
+        ok = [d for d in small_d if n * k % d and pow(n * k, (d - 1) // 2, d) == 1]
         for d in rng.sample(ok, min(4, len(ok))):
             yield Case(f"mpqs_poly {n} {k} {rng.choice([16, 40, 64])} 32768 {d}", k=False, tag="tiny")
     for n in (117298, 100003488, 47053, 1022117, 2445956099):
@@ -695,7 +695,7 @@ def mpqs_cases(rng, tier, scale):
         found = 0
         for _ in range(400):
             n = semiprime(rng, rng.choice([44, 48, 64, 90]), rng.choice([1, 3, 5, 7]))
-            if math.gcd(n, d) == 1 and d * d < n:
+            if math.gcd(n, d) == 1:
                 r = pow(n, (d + 1) // 4, d)
                 if (r * r - n) % d == 0:
                     yield Case(f"mpqs_poly {n} 1 {rng.choice([40, 200])} 32768 {d}", k=False, tag="pseudo-square")
@@ -737,11 +737,11 @@ def mpqs_block_cases(rng, tier, scale):
 
 
 def mpqs_outside(rng, scale):
-    """make_poly called with D^2 > n: `n - h1*h1` underflows. The model predicts the checked profile."""
+    """make_poly called with D^2 > n (r^2 > n): the second branch of the Hensel lift (before its repair `n - h1*h1` underflowed)"""
     for _ in range(6 * scale):
         n = semiprime(rng, rng.choice([17, 18, 20]), rng.choice([1, 3, 5, 7]))
         for d in d_primes_3mod4(rng.choice([700, 1100, 3000]), 4, n):
-            yield Case(f"mpqs_poly {n} 1 24 32768 {d}", k=False, o=False, profiles=["chk"], tag="outside")
+            yield Case(f"mpqs_poly {n} 1 24 32768 {d}", k=False, tag="outside")
 
 
 def qs_cases(rng, tier, scale):
